@@ -189,6 +189,9 @@ def escape_sweep(tier):
         if v:
             base.append((rng(v), "\\%o" % v))  # \1..\7
     base.append((rng(0), "\\0"))
+    # legacy octal escapes take at most three digits and at most the value 0377: a fourth digit is a literal
+    for t, v, tail in (("\\0123", 0o012, "3"), ("\\0777", 0o077, "7"), ("\\00007", 0, "07"), ("\\0400", 0o040, "0"), ("\\0101x", 0o010, "1x")):
+        base.append((None, t, v, tail))
     for v in (0, 1, 0xF, 0x10, 0x7F, 0x80, 0xFF, 0x100, 0xFFF, 0x1000, 0x2028, 0xD7FF, 0xE000, 0xFFFD, 0xFFFF):
         base.append((rng(v), "\\u%04X" % v))
     for v in (0, 0x10, 0xFF, 0x100, 0xFFFF, 0x10000, 0x1F600, 0x2FFFF):
@@ -199,7 +202,15 @@ def escape_sweep(tier):
     for c in "aeghijlmoqyzACEFGHIJKLMNOQRTUVXYZ":
         base.append((rng(ord(c)), "\\" + c))
     seen, out = set(), []
-    for ranges, t in base:
+    for item in base:
+        if len(item) == 4:  # an escape followed by literal text: a concatenation, bare only
+            _, t, v, tail = item
+            node = ("set", rng(v), t[:len(t) - len(tail)])
+            for ch in tail:
+                node = ("cat", node, ("set", rng(ord(ch)), ch))
+            out.append(node)
+            continue
+        ranges, t = item
         if t in seen:
             continue
         seen.add(t)
@@ -219,7 +230,15 @@ def escape_sweep(tier):
     return out
 
 # patterns outside the regular fragment: must run on the backtracking engine (or be rejected), never on the linear-time one
-NON_REGULAR = ["(?=a)b", "a(?!b)", "(a)\\1", "(?<n>a)\\k<n>", "(?<=a)b", "(?<!a)b", "(a)|\\1b", "^(?=\\d)\\w+$", "(a)(b)\\2", "x(?=y)|z"]
+def _backrefs():
+    out = []
+    for n in range(1, 13):  # n capturing groups followed by a reference to the last one (\\1 .. \\12), also inside a class-free tail
+        groups = "".join("(%s)" % chr(ord("a") + i) for i in range(n))
+        out.append(groups + "\\%d" % n)
+        out.append("^" + groups + "x\\%d$" % n)
+    return out
+
+NON_REGULAR = _backrefs() + ["(?=a)b", "a(?!b)", "(a)\\1", "(?<n>a)\\k<n>", "(?<=a)b", "(?<!a)b", "(a)|\\1b", "^(?=\\d)\\w+$", "(a)(b)\\2", "x(?=y)|z"]
 
 # ----------------------------------------------------------------------------- RE2 side: Go's own parse of the executed expression
 class Unsupported(Exception):
